@@ -246,7 +246,7 @@ def gen_plan(rng, tier, index, config=None):
             steps.append({"op": "revert", "copy": cp})
             steps.append({"op": "validate", "copy": cp, "how": "each"})
         elif op == "sighash":
-            steps.append({"op": "sighash", "copy": cp, "idx": r.below(nin + 1), "script": r.pick(["puzzle", "codesep", "random", "sized"]),
+            steps.append({"op": "sighash", "copy": cp, "idx": r.below(nin + 1), "script": r.pick(["puzzle", "codesep", "random", "sized", "truncated"]),
                           "seed": r.bits(32), "all256": r.chance(0.2), "ht": r.bits(8), "checker": r.pick(["fresh", "reuse"]),
                           "len": r.weighted([(0, 1), (1, 1), (75, 1), (76, 1), (252, 2), (253, 3), (254, 2), (255, 3), (256, 2), (257, 1), (520, 1),
                                              (521, 1), (0xFFFF, 1), (0x10000, 1), (r.between(0, 700), 4)])})
@@ -256,8 +256,9 @@ def gen_plan(rng, tier, index, config=None):
             steps.append({"op": "wire_big", "what": r.pick(["inputs", "outputs", "out_script", "in_script", "witness_item", "witness_count"]),
                           "n": r.pick([0xFC, 0xFD, 0xFE, 0xFFFF, 0x10000, 0x10001, 300]), "seed": r.bits(32), "value": r.pick([0, 1, (1 << 64) - 1, r.bits(64)])})
         elif op == "spendables":
-            steps.append({"op": "spendables", "copy": cp, "form": r.pick(["text", "dict", "bin"]), "bia": r.pick([0, 1, 500000]),
-                          "spent": r.chance(0.2), "bis": r.pick([0, 0, 600000])})
+            heights = [0, 1, 0xFC, 0xFD, 500000, 0xFFFF, 0x10000, 0x02000000, 0x02000001, (1 << 31) - 1, (1 << 32) - 1]
+            steps.append({"op": "spendables", "copy": cp, "form": r.pick(["text", "dict", "bin"]), "bia": r.pick([0, 1, 500000, r.pick(heights)]),
+                          "spent": r.chance(0.2), "bis": r.pick([0, 0, 600000, r.pick(heights)])})
         elif op == "oneshot":
             # the one-call path: create_signed_tx from spendables, payables and WIFs
             ks = allkeys if r.chance(0.6) else [k for k in allkeys if r.chance(0.6)]
@@ -1407,6 +1408,11 @@ def _script_for(W, cp, st, idx):
         # code separators in front, in the middle (opcode aligned) and at the end, plus a push containing 0xab
         return b"\xab" + sh.push(b"\xab\xab") + base + b"\xab" + sh.push(struct.pack("<I", r)) + b"\xab\xab"
     x = hashlib.sha256(struct.pack("<I", r)).digest()
+    if kind == "truncated":
+        # a script code whose last instruction is a push announcing more bytes than are left (consensus keeps such a tail
+        # verbatim); code separators and a push of 0xab in front of it
+        tail = bytes([[0x05, 0x4C, 0x4D, 0x4E, 0x20][r % 5]]) + x[: r % 4]
+        return b"\xab" + base + sh.push(b"\xab") + b"\xab" + tail
     if kind == "sized":
         # a well-formed script code of an exact length (data-less opcodes only), to sit on the compact-size boundaries
         ops = bytes([0x76, 0x87, 0xac, 0x61, 0x51, 0x75, 0xab if r & 1 else 0x61])
@@ -1575,6 +1581,25 @@ def _op_spendables(ctx, W, st):
             if blob != exp:
                 ctx.violate("C07", "spendable-binary-bytes", {"got": blob.hex()[:120], "expected": exp.hex()[:120]})
                 return
+
+
+def _op_spendable_rec(ctx, W, st):
+    """a spendable record given literally in the plan goes through its text, dictionary and binary forms"""
+    class _C(object):
+        pass
+    cp = _C()
+    cp.u = [{"value": st["value"], "script": bytes.fromhex(st["script"])}]
+    cp.m = {"ins": [{"prev": bytes.fromhex(st["prev"]), "idx": st["idx"]}]}
+    saved = W.copies.get("__rec__")
+    W.copies["__rec__"] = cp
+    try:
+        for form in ("text", "dict", "bin"):
+            _op_spendables(ctx, W, dict(st, copy="__rec__", form=form))
+    finally:
+        if saved is None:
+            W.copies.pop("__rec__", None)
+        else:
+            W.copies["__rec__"] = saved
 
 
 def _op_wire_big(ctx, W, st):
@@ -1805,7 +1830,7 @@ def _op_oneshot(ctx, W, st):
 
 _OPS = {"oneshot": _op_oneshot, "build": _op_build, "sign": _op_sign, "validate": _op_validate, "fork": _op_fork, "send": _op_send,
         "tamper": _op_tamper, "revert": _op_revert, "sighash": _op_sighash, "readonly": _op_readonly, "permute": _op_permute,
-        "spendables": _op_spendables, "wire_big": _op_wire_big, "wire_tx": _op_wire_tx}
+        "spendables": _op_spendables, "spendable_rec": _op_spendable_rec, "wire_big": _op_wire_big, "wire_tx": _op_wire_tx}
 
 
 def normal_form(plan):
